@@ -298,7 +298,25 @@ impl<'a> Explorer<'a> {
         // roots
         let mut frontier: Vec<u32> = vec![];
         for (ri, r) in self.roots.iter().enumerate() {
+            if let Some(sk) = opts.skips.iter().find(|s| s.kind == 3 && s.phase == opts.phase && s.root as usize == ri) {
+                // building this root killed or hung the engine in an earlier attempt
+                let crash = !sk.reason.contains("no progress");
+                let props = if crash { p(6) | p(7) | p(4) } else { p(2) | p(4) };
+                if props & self.ctx.sel != 0 {
+                    res.violations.push(VRec {
+                        props,
+                        rule: if crash { "containment.crash" } else { "containment.hang" },
+                        detail: format!("building this state: {}", sk.reason),
+                        root: ri,
+                        hist: r.prefix.clone(),
+                        op: None,
+                        mode: "state",
+                    });
+                }
+                continue;
+            }
             crate::types::reg_reset();
+            crate::contain::mark(3, ri as u32, &[], None);
             let ex = rebuild(self.ctx.u, &r.cfg, &r.prefix);
             match snapshot(ex.cr(), r.cfg.hk) {
                 Err(why) => {
@@ -318,6 +336,7 @@ impl<'a> Explorer<'a> {
                 }
             }
         }
+        crate::contain::idle();
         let mut depth = 0usize;
         while !frontier.is_empty() {
             res.level_sizes.push(frontier.len());
@@ -420,8 +439,12 @@ impl<'a> Explorer<'a> {
         let abort = AtomicBool::new(false);
         let nthreads = opts.threads.max(1).min(n.max(1));
         std::thread::scope(|s| {
+            // small stacks on purpose: the cache has no business recursing over its
+            // entries; a linear recursion over a 1000+ entry seed overflows 256 KiB
+            // and is attributed as a crash of that step
+            let stack_kb: usize = std::env::var("LRUMC_STACK_KB").ok().and_then(|v| v.parse().ok()).unwrap_or(256);
             for _ in 0..nthreads {
-                s.spawn(|| loop {
+                let _ = std::thread::Builder::new().stack_size(stack_kb * 1024).spawn_scoped(s, || loop {
                     if abort.load(Ordering::Relaxed) {
                         break;
                     }
